@@ -256,11 +256,15 @@ theorem postM_trimLeft (L : List Nat) : PostM (InnerOK L) (fun _ => True) trimLe
 
 theorem postM_trimRight {Q : RawErr → Prop} : PostM Q (fun _ => True) trimRightM := fun _ => .ret _ True.intro
 
+theorem postM_writeVerbatim (L : List Nat) (b : Bytes) : PostM (InnerOK L) (fun _ => True) (writeVerbatimM b) := by
+  unfold writeVerbatimM
+  exact postM_bind (postM_write L _) (fun _ _ => postM_bind (postM_write L b) (fun _ _ => postM_flush L))
+
 theorem postM_writeAll (L : List Nat) : ∀ cs, PostM (InnerOK L) (fun _ => True) (writeAllM cs)
   | [] => postM_pure () True.intro
   | c :: cs => by
     unfold writeAllM
-    exact postM_bind (postM_write L c) (fun _ _ => postM_writeAll L cs)
+    exact postM_bind (postM_writeVerbatim L c) (fun _ _ => postM_writeAll L cs)
 
 /-- a capture hands on the failures of its body and of its private flush, and the body's status -/
 theorem postM_capture {α} (L : List Nat) {R : α → Prop} {m : M α} (hm : PostM (InnerOK L) R m) :
@@ -449,7 +453,7 @@ theorem lines_renderNode (c : RCtx) (L : List Nat) :
     refine postM_wrapFailAt _ L _ hline (postM_bind (postM_getVar _) (fun lv _ => ?_))
     split
     · exact postM_fail _ (errorfAt_lineIn L _ _ hline)
-    · exact postM_bind (postM_setVar _ _) (fun _ _ => postM_bind (postM_write L _) (fun _ _ => postM_pure _ True.intro))
+    · exact postM_bind (postM_setVar _ _) (fun _ _ => postM_bind (postM_writeVerbatim L _) (fun _ _ => postM_pure _ True.intro))
   | .brk line, _, hL => by
     unfold renderNode
     have hline : (⟨line, true⟩ : Loc).line = 0 ∨ (⟨line, true⟩ : Loc).line ∈ L := Or.inr (hL _ (by simp [Node.lines]))
